@@ -762,18 +762,26 @@ def analyse_pass_dochan(db, rep):
 # =============================================================================== job_close
 class JobCloseHooks(SendHooks):
     def on_branch(self, E, cond, truth):
-        c = cond.strip()
-        src = c.src()
-        if 'refs' in src and c.k == 'bin':
-            # (0 < --refs) true: still referenced
-            E.set('$refs0', fs(0 if truth else 1))
-        p = c.path()
-        if p and p.endswith('.flaghiteof'):
-            E.set('$hiteof', fs(1 if truth else 0))
-        if c.k == 'un' and c.op == '!' and (c.args[0].path() or '').endswith('.numtodo'):
-            E.set('$nomore', fs(1 if truth else 0))
-        if p and p.endswith('.numtodo'):
-            E.set('$nomore', fs(0 if truth else 1))
+        from qv.lib import branch_zero_test
+        # the reference count after its decrement
+        has_dec = any(y.k == 'un' and y.op in ('pre--', 'post--') and y.args[0].src().endswith('refs') for y in cond.walk())
+        if has_dec:
+            c = cond.strip()
+            # (0 < --refs) / (--refs > 0) / !(--refs): evaluate with the decremented value 0 and 1
+            from qv.lib import _cmp_parts
+            p = _cmp_parts(cond)
+            if p is not None:
+                v, f = p
+                if f(0) == truth and f(1) != truth:
+                    E.set('$refs0', fs(1))
+                elif f(1) == truth and f(0) != truth:
+                    E.set('$refs0', fs(0))
+        z = branch_zero_test(cond, truth, lambda v: (v.path() or v.src()).endswith('flaghiteof'))
+        if z:
+            E.set('$hiteof', fs(0 if z == 'zero' else 1))
+        z = branch_zero_test(cond, truth, lambda v: (v.path() or v.src()).endswith('numtodo'))
+        if z:
+            E.set('$nomore', fs(1 if z == 'zero' else 0))
 
     def prim_unlink(self, E, x, args):
         role = self.role_of(E, x.args[0])
